@@ -26,11 +26,20 @@ Ltac hknown := first [ apply hn_lookup_def | apply hn_lookup_def_aux | apply hn_
                      | (apply hn_mapM; intros ?) | (apply hn_iterM; intros ?) ].
 
 
+Ltac kind_facts :=
+  repeat match goal with
+         | H : dt_is _ _ = true |- _ => apply dk_eqb_eq in H
+         | H : negb (dt_is _ _) = false |- _ => apply negb_false_iff in H
+         | H : dk_eqb _ _ = true |- _ => apply dk_eqb_eq in H
+         | H : _ && _ = true |- _ => apply andb_prop in H; destruct H
+         | H : _ || _ = false |- _ => apply orb_false_elim in H; destruct H
+         end.
+Ltac kind_tac := cbn; first [ reflexivity | assumption | congruence | (unfold dt_is in *; kind_facts; cbn in *; first [assumption | congruence | (symmetry; assumption)]) ].
 Ltac resok_leaf :=
   let a := fresh "a" in let s := fresh "s" in let HPs := fresh "HPs" in let p := fresh "p" in let E := fresh "E" in
   intros a s [-> HPs] p E; cbn in E;
   first [ discriminate E
-        | (inversion E; subst; first [ (apply valok_nonrec; intros; discriminate) | (decompose [and] HPs; eauto) ]) ].
+        | (inversion E; subst; decompose [and] HPs; split; [ first [ (apply valok_nonrec; intros; discriminate) | eauto ] | kind_tac ]) ].
 
 Ltac ht known :=
   repeat first
@@ -75,12 +84,12 @@ Lemma tr_eval_cmp (P : st -> Prop) t c l r : stable P -> tr P (eval_cmp t c l r)
 Proof. intros SP. unfold eval_cmp. cbv zeta. ht evk. Qed.
 
 
-Lemma tr_cast_prim (P : st -> Prop) t c p target : stable P -> tr P (cast_prim t c p target) (fun p' s => forall tn k, p' <> PRec tn k).
+Lemma tr_cast_prim (P : st -> Prop) t c p target : stable P -> tr P (cast_prim t c p target) (fun p' s => (forall tn k, p' <> PRec tn k) /\ payload_kind p' = target).
 Proof.
   intros SP. unfold cast_prim.
   repeat first [ apply tr_rt_error | apply tr_failm
                | match goal with
-                 | |- tr _ (ret _) _ => eapply tr_post; [apply tr_ret | intros ? ? [-> _] ? ?; discriminate]
+                 | |- tr _ (ret _) _ => eapply tr_post; [apply tr_ret | intros ? ? [-> _]; split; [intros ? ?; discriminate|reflexivity]]
                  | |- tr _ (bind _ _) _ => eapply tr_bind with (Q := fun _ _ => True); [stab2 | apply tr_hn_true; [stab2 | unfold prim_to_string; hnt hknown] | intros ?]
                  | |- tr _ (match ?x with _ => _ end) _ => destruct x
                  end ].
@@ -112,5 +121,9 @@ Proof.
 Qed.
 Lemma resok_payload r p s : resok r s -> r_val r = Some p -> valok p s.
 Proof. intros H E. apply H. exact E. Qed.
+Lemma resok_kind r p s : resok r s -> r_val r = Some p -> payload_kind p = dk (r_type r).
+Proof. intros H E. apply H. exact E. Qed.
 Lemma newvar_wr0 name ty owner id s : newvar_post name ty false owner id s -> wr id s.
 Proof. intros [p H]. eapply cellmeta_wr; [exact H|left; reflexivity]. Qed.
+Lemma newvar_fits name ty cst owner id v s : newvar_post name ty cst owner id s -> payload_kind v = dk ty -> fits id v s.
+Proof. intros [p H] E. eapply cellmeta_fits; [exact H|exact E]. Qed.
